@@ -193,8 +193,9 @@ pub fn cell_to_children(index: u64, child_resolution: Option<i32>) -> Result<Vec
     }
 
     // If target resolution equals current resolution, return the original cell
+    // (re-encoded, so that a non-canonical alias is not echoed back)
     if new_resolution == current_resolution {
-        return Ok(vec![index]);
+        return Ok(vec![serialize(&cell)?]);
     }
 
     let mut new_origin_ids = vec![origin_id];
@@ -273,7 +274,8 @@ pub fn cell_to_parent(index: u64, parent_resolution: Option<i32>) -> Result<u64,
     }
 
     if new_resolution == current_resolution {
-        return Ok(index);
+        // Re-encode, so that a non-canonical alias is not echoed back
+        return serialize(&cell);
     }
 
     let resolution_diff = current_resolution - new_resolution;
